@@ -130,6 +130,71 @@ def apply_damage(root, single, view, damage, tree):
     return [{"present": s["present"], "len": s["len"], "flips": sorted(s["flips"])} for s in state]
 
 
+def run_proto(case):
+    """One behaviour of CheckerProto.tla replayed into ONE real Checker object: generators opened, advanced piece
+    by piece, given up; results() asked; pieces damaged / repaired in between.  One record per results() call:
+    the figure and the truth on disk at that moment."""
+    sbx = new_sandbox("cp")
+    recs = []
+    try:
+        P, v, n = case["P"], case["version"], case["npieces"]
+        size = (n - 1) * P + P // 2 + 3                  # the last piece is a short one: uneven weights
+        tree = {"name": "proto.bin", "single": True, "files": [{"path": [], "size": size}]}
+        root = alpha.materialize(tree, os.path.join(sbx, "p"))
+        out = os.path.join(sbx, "m.torrent")
+        st = make_metafile(dict(case, tree=tree, meta_src="own" if case["id"] % 2 else "ref"), root, out)
+        ok = [True] * n
+
+        def toggle(k):                                   # xor one byte of piece k: doing it again repairs the piece
+            with open(root, "r+b") as fh:
+                fh.seek((k - 1) * P + 1)
+                b = fh.read(1)
+                fh.seek((k - 1) * P + 1)
+                fh.write(bytes([b[0] ^ 0xFF]))
+            ok[k - 1] = not ok[k - 1]
+        psize = [P] * (n - 1) + [size - (n - 1) * P]
+        from torrentfile.recheck import Checker
+        ck = None
+        gens = {}
+        rid = 10 ** 7 + case["id"] * 100
+        if st != "ok":
+            return [{"id": rid, "op": "proto", "group": "none", "version": v, "P": P, "clauses": case["clauses"],
+                     "status": "create:" + st, "ppm": -1, "truth": [], "nostream": True, "stream": []}]
+        for j, stp in enumerate(case["ops"]):
+            op, g = stp["op"], stp["g"]
+            if op == "bad":
+                toggle(g)
+                continue
+            if op in ("init", "ok"):
+                continue
+            if ck is None:
+                ck = Checker(out, root)
+            rec = None
+            try:
+                if op == "open":
+                    gens[g] = ck.iter_hashes()
+                elif op == "advance" and g in gens:
+                    next(gens[g], None)
+                elif op == "abandon" and g in gens:
+                    if j % 2:
+                        gens[g].close()
+                    del gens[g]
+                elif op == "flip":
+                    toggle(g)
+                elif op == "results":
+                    res = ck.results()
+                    rec = {"status": "ok", "ppm": int(round(float(res) * 1000000))}
+            except Exception as ex:
+                rec = {"status": "exc:" + type(ex).__name__, "ppm": -1}
+            if rec is not None:
+                rec.update({"id": rid + j, "op": "proto", "group": "none", "version": v, "P": P, "clauses": case["clauses"],
+                            "truth": [[bool(o), s] for o, s in zip(ok, psize)], "nostream": True, "stream": []})
+                recs.append(rec)
+        return recs
+    finally:
+        rm(sbx)
+
+
 def run_scaled(case):
     """Scaled world: the universe TLC model-checked (piece length 2 or 3, files of 0..N bytes, every
     on-disk state) replayed into the REAL checker.  v1 needs nothing special (the piece length is just
@@ -185,6 +250,8 @@ def run_scaled(case):
 def run_any(case):
     if case.get("op") == "findroot":
         return run_findroot(case)
+    if case.get("op") == "proto":
+        return run_proto(case)
     return run_scaled(case) if case.get("scaled") else run_recheck(case)
 
 
